@@ -493,6 +493,15 @@ class Executor:
             env = {"result": value}
             for g, e in getattr(c, "ghost_at_exit", {}).items():
                 st.ghost[g] = self.spec(st, e, extra_env=env, old=self.entry)
+            # lemmas: proved here (an obligation like any other) and only then available to the postconditions - the
+            # assert-then-use idiom for facts the solver does not find by itself (non-linear monotonicity instances)
+            for label, e in labelled(getattr(c, "exit_lemmas", ()), "lemma"):
+                try:
+                    f = self.spec(st, e, extra_env=env, old=self.entry)
+                except Outside:
+                    continue
+                self.oblige(st, f, f"lemma.{label}", "lemma")
+                st.assume(f)
             for label, e in labelled(c.ensures, "post"):
                 self.oblige(st, self.spec(st, e, extra_env=env, old=self.entry), f"ensures.{label}", "post")
             # a normal return must not happen where the contract says `raises`
